@@ -28,6 +28,12 @@ class C13(Check):
             "life, sampled 3-4 life histories, Shutdown between lives), judged per life by the oracles and as a "
             "whole by the model (lts_lives: every life accepted from the initial state, previous life over in every "
             "state its log allows); a restart while the previous serve call is still draining (direct oracles); "
+            "start calls that fail by themselves (ListenAndServe: bad network, tcp-tls without certificates, tcp / udp "
+            "address in use, bad port; ActivateAndServe: no listeners, closed UDPConn) on a never-started or stopped "
+            "Server value followed by Shutdown (not-started error at once), more failing starts and a retry that "
+            "serves a full life (fake world, label StFail in the LTS); one Server value over real loopback sockets "
+            "through ListenAndServe and ActivateAndServe across udp / tcp / tcp-tls (all ordered pairs, stale "
+            "srv.PacketConn / srv.Listener kept), across failing starts and Shutdown of the unstarted server; "
             "every boundary-event log is checked by direct oracles and for acceptance "
             "by the LTS inside Coq; 12 Server values over real loopback UDP/TCP sockets, each living twice, with the direct oracles; goroutine "
             "count back at baseline after every scenario. A case is one event log; distinct by hash.")
